@@ -111,6 +111,9 @@ class Spec:
                 cur = self.decreases
             elif s == "@extra":
                 cur = self.extra
+            elif s.startswith("@proved-as"):
+                self.proved_as = s.split()[1]
+                cur = None
             elif s.startswith("@loop"):
                 n = int(s.split()[1])
                 cur = self.loops.setdefault(n, [])
@@ -206,6 +209,8 @@ def check_frozen(spec, orig_text):
     global _frozen
     if spec.key in all_proved_keys() or spec.key.split("__")[0] in all_proved_keys():
         return
+    if getattr(spec, "proved_as", None) in all_proved_keys():
+        return          # same function text is proved under another key (e.g. with the lock made explicit)
     if _frozen is None:
         fp = os.path.join(VERIF, "contracts", "frozen.json")
         loaded = json.load(open(fp)) if os.path.exists(fp) else {}
@@ -276,12 +281,14 @@ def splice_function(u, spec, mode, canary=False, variants=(), rename=None):
     # loop clauses + inserts are positioned on `body` offsets (relative to body_open)
     edits = []  # (offset_in_text, string)
     if mode == "prove":
-        for n, lines in spec.loops.items():
+        loops_gone = bool(spec.loops) and len(r["loops"]) == 0     # loop-free rewrite of the function: the
+        # invariants are proof aids for loops that no longer exist; the function's own clauses still decide
+        for n, lines in ({} if loops_gone else spec.loops).items():
             if n < 1 or n > len(r["loops"]):
                 raise LostAnchor("%s: @loop %d but function has %d loops" % (spec.key, n, len(r["loops"])))
             off = r["loops"][n - 1]["body_open"]
             edits.append((off, "\n" + "\n".join("            " + l.strip() for l in lines) + "\n        "))
-        if len(spec.loops) != len([l for l in r["loops"]]) and spec.loops:
+        if len(spec.loops) != len([l for l in r["loops"]]) and spec.loops and not loops_gone:
             # every loop of a proved function must carry an invariant block, otherwise the
             # function changed shape (new loop): fail closed
             missing = [k + 1 for k in range(len(r["loops"])) if (k + 1) not in spec.loops]
@@ -292,6 +299,8 @@ def splice_function(u, spec, mode, canary=False, variants=(), rename=None):
             m = re.match(r"loop (\d+) head$", anchor)
             if m:
                 n = int(m.group(1))
+                if loops_gone:
+                    continue
                 if n > len(r["loops"]):
                     raise LostAnchor("%s: @insert loop %d head: no such loop" % (spec.key, n))
                 edits.append((r["loops"][n - 1]["body_open"] + 1, ins))
